@@ -25,7 +25,7 @@ var vSleptMS int
 
 func vStubSleepRec(d time.Duration) { vSleptMS += int(d / time.Millisecond) }
 
-func vStubClockStart() { vSleptMS = 0 }
+func vStubClockStart()  { vSleptMS = 0 }
 func vStubSleptMS() int { return vSleptMS }
 
 // vExpandPattern: per-second states of one interval sequence like "u7d5" (independent of CreateLossItvls).
